@@ -167,17 +167,22 @@ def inj_dup_ref(rng, d, forms=None):
     cmts = [None, None]
     if rng.random() < 0.35:
         cmts[rng.randrange(2)] = 'a comment on one copy only'
+    emptied = False
     for f, cm in zip((f1, f2), cmts):
         if f == 'inline':
             c1.inline_refs.append(am.InlineRef(kind, t2, c2.name))
             placed.append(('t', t1))
         else:
-            d.refs.append(am.Ref(kind, t1, list(cols1), t2, list(cols2), name=name, on_update=ou, on_delete=od, form=f, comment=cm))
+            nm_ = name
+            if name is None and not emptied and rng.random() < 0.25:
+                nm_ = ''            # the absent name spelled as an empty quoted name (`Ref "": ...`): still the same reference
+                emptied = True
+            d.refs.append(am.Ref(kind, t1, list(cols1), t2, list(cols2), name=nm_, on_update=ou, on_delete=od, form=f, comment=cm))
             e = ('r', len(d.refs) - 1)
             _pos(rng, d, e, placed[0] if placed else None)
             placed.append(e)
     commented = any(cm is not None and f != 'inline' for f, cm in zip((f1, f2), cmts))
-    return DBV, {'forms': f'{f1}+{f2}' + ('+comment' if commented else ''), 'kind': kind, 'arity': k}
+    return DBV, {'forms': f'{f1}+{f2}' + ('+comment' if commented else '') + ('+emptyname' if emptied else ''), 'kind': kind, 'arity': k}
 
 
 def inj_empty_table(rng, d):
@@ -252,6 +257,12 @@ def inj_unknown_table_group(rng, d):
     return TNF, {}
 
 
+def _nocol(rng):
+    """name of a column that does not exist; sometimes with characters that mean something to a string formatter"""
+    n = rng.randrange(10**6)
+    return rng.choice([f'nocol{n}', f'nocol{n}', f'nocol{{v{n}}}', f'{{0}}nocol{n}', f'nocol{n}{{', f'no%scol{n}', f'nocol{n}}}', f'{{self.name}}{n}'])
+
+
 def inj_unknown_col_ref(rng, d):
     t1 = rng.randrange(len(d.tables))
     t2 = rng.randrange(len(d.tables))
@@ -264,7 +275,7 @@ def inj_unknown_col_ref(rng, d):
         b.columns.append(am.Column('extra_b', am.ColType('plain', 'int')))
     side = rng.choice([1, 2])
     pos = rng.randrange(k)
-    (c1 if side == 1 else c2)[pos] = f'nocol{rng.randrange(10**6)}'
+    (c1 if side == 1 else c2)[pos] = _nocol(rng)
     d.refs.append(am.Ref(rng.choice(gen.REF_KINDS), t1, c1, t2, c2, form=rng.choice(['short', 'block'])))
     _pos(rng, d, ('r', len(d.refs) - 1))
     return CNF, {'side': side, 'arity': k}
@@ -273,13 +284,13 @@ def inj_unknown_col_ref(rng, d):
 def inj_unknown_col_inline(rng, d):
     t = d.tables[rng.randrange(len(d.tables))]
     t2 = rng.randrange(len(d.tables))
-    rng.choice(t.columns).inline_refs.append(am.InlineRef(rng.choice(['>', '<', '-']), t2, f'nocol{rng.randrange(10**6)}'))
+    rng.choice(t.columns).inline_refs.append(am.InlineRef(rng.choice(['>', '<', '-']), t2, _nocol(rng)))
     return CNF, {}
 
 
 def inj_unknown_col_index(rng, d):
     t = d.tables[rng.randrange(len(d.tables))]
-    subj = [('col', f'nocol{rng.randrange(10**6)}')]
+    subj = [('col', _nocol(rng))]
     if rng.random() < 0.5:
         subj.insert(rng.randint(0, 1), ('col', t.columns[0].name))
     if rng.random() < 0.3:
@@ -353,6 +364,10 @@ def run_shard(spec, tier, seed, budget_s):
                     sh.inconclusive.append(f'injector {rule} failed: {type(e).__name__}: {e}')
                     continue
                 text = surface.render(d, f'{seed}-{i}-{k}-{rule}-{fp}')
+                if rng.random() < 0.25:
+                    # block comments written with extra stars, before and after everything (a comment ends at the first */)
+                    text = rng.choice(['/** header **/', '/*** generated ***/', '/* a **/']) + '\n' + text + '\n' + rng.choice(['/* footer */', '/** end **/']) + '\n'
+                    sh.count('obs.cases_between_starred_comments')
                 feats = dict(feats, rule=rule)
                 sh.case(text, nontrivial=len(host.tables) > 1 or bool(host.refs),
                         sample={'rule': rule, 'expect': want, 'features': feats, 'text': text[:1000]})
